@@ -116,7 +116,7 @@ class Ctx:
                 pass
             if m2:
                 res["generated"] = res["distinct"] = int(m2.group(1))
-        res["violated"] = bool(re.search(r"Error: (Invariant|Action property|Temporal properties|Deadlock|Property|Postcondition)", out)
+        res["violated"] = bool(re.search(r"Error: (Invariant|Action property|Temporal propert|Deadlock|Property|Postcondition)", out)
                                or "is violated" in out or "Deadlock reached" in out)
         hard = re.search(r"(Error: .*|Parsing or semantic analysis failed|java\.lang\.\w+Error|Exception in thread)", out)
         res["ok"] = (r.returncode == 0)
@@ -154,7 +154,7 @@ class Ctx:
         self._vh = out
         return out
 
-    def run_harness(self, sub, scenarios=None, args=None, timeout=1200, env=None, stdin_text=None):
+    def run_harness(self, sub, scenarios=None, args=None, timeout=1200, env=None, stdin_text=None, allow_crash=False):
         """Runs `vh <sub> [args]` feeding scenarios as NDJSON on stdin; returns list of JSON result objects."""
         vh = self.build_harness()
         e = dict(GOENV)
@@ -186,7 +186,7 @@ class Ctx:
             if f.startswith("race-%s" % sub):
                 with open(os.path.join(self.tmp, f), errors="replace") as fh:
                     self.race_reports.append(fh.read())
-        if r.returncode not in (0,) and not res:
+        if r.returncode not in (0,) and not res and not allow_crash:
             raise ToolError("harness %s failed rc=%s:\n%s" % (sub, r.returncode, self.last_stderr[-4000:]))
         return res
 
